@@ -224,8 +224,8 @@ class Builder(object):
             a = self.pick()
             n = prod(a.dims)
             opts = [d for d in _factorizations(n) if d != a.dims]
-            if not opts:
-                return None
+            if rng.random() < 0.15 or not opts:
+                opts = [list(a.dims)]      # a reshape to the current dimensions is still an operation node
             d = rng.choice(opts)
             v = self.result(("reshape", d), [a], d, a.pos, a.exact, a.mag)
             if getattr(a, "fetched", False):
